@@ -1,6 +1,6 @@
 (* ExtendedCopy (Model/CopyExt.v): success => the graph of every root above the node is in the
    destination and the destination reference is the node. *)
-From Oras Require Import Base.Prelude Model.CopySpec Model.CopyExt Proofs.CopySpec Proofs.CopyLinks.
+From Oras Require Import Base.Prelude Model.CopySpec Model.CopyExt Proofs.CopySpec Proofs.CopyLinks Model.CopyBytes Proofs.CopyBytes.
 Local Open Scope nat_scope.
 
 Ltac simp_st := cbn [set_ph ph dst cached tag returned] in *.
@@ -152,3 +152,69 @@ Proof.
   intros H Hr. destruct (xrun_success g c tgt tr (init c d0) st eq_refl H Hr) as [w [s1 [R [-> ->]]]].
   exists w, s1. repeat split; auto.
 Qed.
+
+(* ---- bytes: from every root, and for ExtendedCopy ---- *)
+Lemma stored_nodes_app a : forall b acc, stored_nodes (a ++ b) acc = stored_nodes b (stored_nodes a acc).
+Proof. induction a as [|e a IH]; simpl; intros; [reflexivity|apply IH]. Qed.
+
+Section BytesExt.
+Variable digest : str -> nat.
+Variable src_bytes : node -> str.
+
+(* whatever CopySpec says is present is there with the source's bytes *)
+Lemma bytes_of_present g tr served bs0 bs d0 n :
+  collision_free digest src_bytes -> key_respects_bytes src_bytes g ->
+  (forall n b, In (n, b) bs0 -> verify digest src_bytes n b = true) -> map fst bs0 = d0 ->
+  brun digest src_bytes tr served bs0 = Some bs ->
+  has g (stored_nodes tr d0) n = true ->
+  exists m b, In (m, b) bs /\ g_dkey g m = g_dkey g n /\ b = src_bytes n.
+Proof.
+  intros Hcf Hk Hv0 Hd0 Hb Hp.
+  destruct (brun_sound digest src_bytes tr served bs0 bs Hb Hv0) as [Hv Hnodes].
+  rewrite Hd0 in Hnodes.
+  apply has_spec in Hp as [m [Hin Hkey]].
+  rewrite <- Hnodes in Hin. apply in_map_iff in Hin as [[m' b] [Hfst Hin]]. simpl in Hfst. subst m'.
+  exists m, b. split; [exact Hin|]. split; [exact Hkey|].
+  rewrite (Hcf m b (Hv m b Hin)). now apply Hk.
+Qed.
+
+Lemma bytes_identical_all_roots g c d0 tr st served bs0 bs :
+  closed_nodes g d0 -> mt_consistent g ->
+  collision_free digest src_bytes -> key_respects_bytes src_bytes g ->
+  (forall n b, In (n, b) bs0 -> verify digest src_bytes n b = true) -> map fst bs0 = d0 ->
+  accepts g c d0 tr = Some st -> returned st = Some true ->
+  brun digest src_bytes tr served bs0 = Some bs ->
+  forall r n, In r (c_root c :: c_xroots c) -> reach g r n ->
+    exists m b, In (m, b) bs /\ g_dkey g m = g_dkey g n /\ b = src_bytes n.
+Proof.
+  intros Hc Hm Hcf Hk Hv0 Hd0 Ha Hr Hb r n Hin Hn.
+  pose proof (closure_all_roots g c d0 tr st Hc Hm Ha Hr r n Hin Hn) as Hp.
+  unfold accepts in Ha. pose proof (run_dst_stores g c tr _ _ Ha) as Hdst. simpl in Hdst.
+  rewrite Hdst in Hp.
+  exact (bytes_of_present g tr served bs0 bs d0 n Hcf Hk Hv0 Hd0 Hb Hp).
+Qed.
+
+(* ExtendedCopy: success => the reference is on the node and every node under every root is in the
+   destination with the source's bytes *)
+Lemma extended_copy_bytes g c tgt d0 tr st served bs0 bs :
+  closed_nodes g d0 -> mt_consistent g ->
+  collision_free digest src_bytes -> key_respects_bytes src_bytes g ->
+  (forall n b, In (n, b) bs0 -> verify digest src_bytes n b = true) -> map fst bs0 = d0 ->
+  xaccepts g c tgt d0 tr = Some st -> returned st = Some true ->
+  brun digest src_bytes tr served bs0 = Some bs ->
+  tag st = Some tgt /\
+  forall r n, In r (c_root c :: c_xroots c) -> reach g r n ->
+    exists m b, In (m, b) bs /\ g_dkey g m = g_dkey g n /\ b = src_bytes n.
+Proof.
+  intros Hc Hm Hcf Hk Hv0 Hd0 Ha Hr Hb.
+  destruct (extended_copy_lemma g c tgt d0 tr st Hc Hm Ha Hr) as [Ht Hall].
+  split; [exact Ht|]. intros r n Hin Hn. pose proof (Hall r n Hin Hn) as Hp.
+  destruct (extended_copy_tag_last g c tgt d0 tr st Ha Hr) as [w [s1 [A1 [_ [Hd ->]]]]].
+  unfold accepts in A1. pose proof (run_dst_stores g c _ _ _ A1) as Hdst. simpl in Hdst.
+  rewrite Hd, Hdst in Hp.
+  assert (E : stored_nodes (w ++ [TagB tgt; TagE tgt; Ret true]) d0 = stored_nodes (w ++ [Ret true]) d0)
+    by (rewrite !stored_nodes_app; reflexivity).
+  rewrite <- E in Hp.
+  exact (bytes_of_present g _ served bs0 bs d0 n Hcf Hk Hv0 Hd0 Hb Hp).
+Qed.
+End BytesExt.
